@@ -24,7 +24,8 @@ let events_at sched j = List.filter (fun (s, _, _) -> s = j) sched
 (* Real sleeps last AT LEAST their nominal 100 ms; on a busy machine every sleep of a chain ends some ms late and the
    lateness adds up, so a wake-up can fall behind the next scripted event.  The model is therefore also run with
    longer sleeps (the same for every sleep of the run) and has to explain the observation for one of them. *)
-let pause_stretches = List.init 31 (fun i -> 100 + i)
+let pause_stretches = List.init 31 (fun i -> i)       (* extra ms per sleep *)
+let pause_stretch cf0 d = { cf0 with cSL = nat_of_int (int_of_nat cf0.cSL + d); cGL = nat_of_int (int_of_nat cf0.cGL + d) }
 
 let () =
   register "pm_classify" (function [e; l] ->
@@ -37,11 +38,11 @@ let () =
       let cls = classify (bytes_of_hex expect) in
       let sched = parse_sched sched in
       let hticks = int_of_string horizon * u in
-      (* the run at 1 ms resolution with sleeps of [sl] ms (100 as written; more when the machine is busy and every
+      (* the run at 1 ms resolution with sleeps [sl] ms longer than written (0, or more when the machine is busy and every
          sleep of the chain ends late) *)
       let sim sl =
         let cf0 = cfg_of (n_of_int 1) (z_of_int (int_of_string tmo)) (n_of_int (int_of_string proto)) in
-        let cf = { cf0 with cSL = nat_of_int sl; cGL = nat_of_int sl } in
+        let cf = pause_stretch cf0 sl in
         let st = ref (rinit : n list rstate) in
         let res = ref None in
         let feed j e =
@@ -73,7 +74,7 @@ let () =
        | _ -> false in
       let obs = String.split_on_char '|' measured in
       if List.exists (fun sl -> let p = sim sl in List.exists (ok p) obs) pause_stretches then "match"
-      else "pred=" ^ show (sim 100)
+      else "pred=" ^ show (sim 0)
     | _ -> "?args");
   register "pm_gate" (function [u; proto; horizon; sched; measured; tol] ->
       let u = int_of_string u in
@@ -81,7 +82,7 @@ let () =
       let hticks = int_of_string horizon * u in
       let sim sl =
         let cf0 = cfg_of (n_of_int 1) (z_of_int 1) (n_of_int (int_of_string proto)) in
-        let cf = { cf0 with cSL = nat_of_int sl; cGL = nat_of_int sl } in
+        let cf = pause_stretch cf0 sl in
         let st = ref { s_pausing = false; s_stopped = false; s_ph = SIdle } in
         let keeps = ref 0 in
         let keeps_at = Array.make (hticks + 1) 0 in
@@ -120,7 +121,7 @@ let () =
        | _ -> false in
       let obs = String.split_on_char '|' measured in
       if List.exists (fun sl -> let p = sim sl in List.exists (ok p) obs) pause_stretches then "match"
-      else "pred=" ^ show (sim 100)
+      else "pred=" ^ show (sim 0)
     | _ -> "?args")
 
 (* pc_sim T SL GL n W P events : runs the composition with the real reader machines (cstep) and the
@@ -209,11 +210,11 @@ let () =
       let n = nat_of_int (if has_f then nframes else nframes + 1) in
       let big = nat_of_int 1000000 in
       let w = nat_of_int 1000 in
-      (* one run at 1 ms resolution, every sleep lasting [sl] ms (the poll wait twice that) *)
+      (* one run at 1 ms resolution, every sleep lasting [sl] ms longer than written (the poll wait twice that) *)
       let sim sl =
         let cf0 = cfg_of (n_of_int 1) (z_of_int (int_of_string tmo)) (n_of_int 3) in
-        let cf = { cf0 with cSL = nat_of_int sl; cGL = nat_of_int sl } in
-        let fp = nat_of_int (int_of_n Consts.pause_final_ack_poll_ms * sl / 100) in
+        let cf = pause_stretch cf0 sl in
+        let fp = nat_of_int (int_of_n Consts.pause_final_ack_poll_ms + 2 * sl) in
         let init = { (ydinit n) with dPS = CSDone } in
         let ph = ref (PdData init) in
         let saved = ref false in
@@ -308,7 +309,7 @@ let () =
       let ms_l = String.split_on_char '|' measured and oc_l = String.split_on_char '|' outcome in
       if List.length ms_l = List.length oc_l
          && List.exists (fun sl -> let p = sim sl in List.exists2 (ok_attempt p) ms_l oc_l) pause_stretches
-      then "match" else "pred=" ^ show (sim 100)
+      then "match" else "pred=" ^ show (sim 0)
     | _ -> "?args")
 
 (* pp_probe acks : the acknowledgement bookkeeping of pipelineRecvAck, starting in the probing phase.
